@@ -525,7 +525,7 @@ class Generator(object):
                 for fnc in cl[0].ghosts.get(s.name, []):
                     fnc(GhostCtx(self, cl[2]))
         elif isinstance(s, Ghost):
-            if s.name.endswith('.after') and getattr(s, 'fname', None) == self.fn.key:
+            if (s.name.endswith('.after') or s.name.endswith('.before')) and getattr(s, 'fname', None) == self.fn.key:
                 for fnc in spec.ghosts.get(s.name, []):
                     fnc(GhostCtx(self, NsCtx(spec, s.ns)))
         elif isinstance(s, Comment):
